@@ -57,6 +57,41 @@ CLAIMED = {
          "never decrease the key, strconv.ParseUint/FormatUint mutually inverse (uninterpreted). The START_ACTIVITY cancellation when no number can be "
          "obtained is checked under C10's site clauses once those are claimed. The file-backed counter of apricot/local (documented unsafe) is not claimed.",
          "DESIGN.md §6 C07"),
+ "C01": ("Proof obligations on the real code, for all paths: (1) the fsm.Events literal of newEnvironment is exactly the documented graph (structural "
+         "obligation read from the SSA constants); (2) closed world: every call of Environment.setState and fsm.FSM.SetState in the repository sits in a "
+         "function under contract and passes \"ERROR\" or \"DONE\" (the watcher's wfState.String() is proved to be \"ERROR\" from State.String's contract and "
+         "the fact that wfState is never assigned after the timer is armed); (3) TryTransition fires the FSM event only while holding transitionMutex, "
+         "released by a deferred Unlock, after the transition's own check; (4) TeardownEnvironment forces DONE only under the same mutex; (5) the API maps "
+         "a failed transition to GO_ERROR and forces ERROR if that is refused too (ControlEnvironment, all paths).",
+         "Lock discipline only: mutual exclusion itself is sync.RWMutex's semantics (assumed); concurrent callers are not explored. The looplab/fsm "
+         "library's behaviour (an event not in the table returns an error before any callback) is assumed. That EXIT/RECOVER are never requested is not "
+         "yet an obligation. Unknown callees are havocked (sound over-approximation); site clauses name call sites by callee, not by line.",
+         "DESIGN.md §6 C01"),
+ "C08": ("Proof obligations for all paths of the four FSM callbacks (negative-weight hooks, then the built-in work, then non-negative hooks - each exactly "
+         "in that order, asserted at every call site by ghost phase variables), of the three weight predicates (w<0, w>=0, all), of HooksMap/CallsMap."
+         "GetWeights (result sorted ascending, one entry per key; loop invariants, sort.Ints assumed) and of handleHooks (the filtered weight list is an "
+         "order-preserving, hence sorted, sub-list; per weight: start calls before awaiting calls before running task hooks).",
+         "The order of moments across callbacks (before_event, leave_state, enter_state, after_event) is the looplab/fsm contract (assumed). "
+         "ParseTriggerExpression (string parsing) and the bookkeeping that every started call is awaited exactly once or cancelled at teardown are not "
+         "yet under contract. What a plugin does after Start() returned is outside. Calls through the weightPredicate parameter are treated as pure "
+         "(all three call sites pass closures verified pure).",
+         "DESIGN.md §6 C08"),
+ "C09": ("Proof obligations for all paths: a hook error at before_<event> / leave_<state> calls Cancel and returns before any later hook or the task "
+         "transition (ghost flags negErr/cancelled at the call sites of the real callbacks); at enter_<state> / after_<event> Cancel only records the "
+         "error and the remaining steps still run; handlerFunc runs the transition body only for an event not already cancelled and cancels on its "
+         "error; in handleHooks an error is appended to the critical failures only under hook.GetTraits().Critical; goroutine frame obligations for "
+         "Calls.AwaitAll (shared result map written only under a mutex - a genuine defect found here and repaired by a fix: commit).",
+         "fsm semantics of Cancel (state unchanged when cancelled in before/leave) assumed. Real timeouts, runTasksAsHooks' select-based collector and its "
+         "classification of exit codes are not yet under contract. Goroutine frames are an ownership argument (who may write what), not an exploration "
+         "of schedules.",
+         "DESIGN.md §6 C09"),
+ "C10": ("Proof obligations for all paths of the real callbacks: in before_START_ACTIVITY the run number is requested, stored and the run timestamps "
+         "are written strictly after the negative-weight hooks and before the non-negative ones, never on a cancelled path, and a failing NewRunNumber "
+         "cancels without storing anything; every SetRuntimeVar of leave_/enter_/after_ callbacks happens between the two hook phases; in "
+         "after_event the run number is zeroed only after the non-negative hooks ran.",
+         "Not yet obligations: the 'only if still empty' guards that make the end timestamps set-at-most-once, the teardown-while-RUNNING end time, and the "
+         "closed-world frame over every writer of the four variables. Hooks (plugins/tasks) overwriting the variables and clock steps are outside.",
+         "DESIGN.md §6 C10"),
 }
 
 NOT_APPLICABLE = {
